@@ -337,8 +337,14 @@ func TestC08(t *testing.T) {
 			var history []*c08Query
 			lt := uint64(1 + rng.Intn(3))
 			for qi := 0; qi < perBubble; qi++ {
-				lt += uint64(1 + rng.Intn(3))
+				sameTime := qi > 0 && rng.Intn(3) == 0 // another query with the Lamport time of the previous one (other origin / id)
+				if !sameTime {
+					lt += uint64(1 + rng.Intn(3))
+				}
 				q := c08GenQuery(rng, node, tags, tagKeys, p, lt)
+				if sameTime && (q.M.ID == history[len(history)-1].M.ID || bytes.Equal(q.Raw, history[len(history)-1].Raw)) {
+					sameTime = false // not a different query after all
+				}
 				history = append(history, q)
 				ack := q.M.Flags&wire.FlagAck != 0
 				nobc := q.M.Flags&wire.FlagNoBroadcast != 0
@@ -377,6 +383,16 @@ func TestC08(t *testing.T) {
 					check("first", observe(q), want)
 					deliver(q)
 					check("second", observe(q), c08Obs{})
+				}
+				if sameTime && history[len(history)-2].M.LTime == q.M.LTime {
+					// the earlier query of this Lamport time arrives once more after the later one
+					old := history[len(history)-2]
+					deliver(old)
+					o := observe(old)
+					if o.Delivered+o.Acks+o.Queued != 0 {
+						viols = append(viols, viol{"duplicate-after-same-time-query", fmt.Sprintf("queries %q (id %d) and %q (id %d) share Lamport time %d; a duplicate of the first after the second was delivered %d times, acked %d times, queued %d times, want none", old.M.Name, old.M.ID, q.M.Name, q.M.ID, q.M.LTime, o.Delivered, o.Acks, o.Queued), nil})
+					}
+					counts["duplicates_after_a_same_time_query"]++
 				}
 				if len(history) > 2 && rng.Intn(8) == 0 { // a much later duplicate of an earlier query
 					old := history[rng.Intn(len(history)-1)]
